@@ -8,7 +8,8 @@ THEOREMS = ["Rva.liveNode_stable", "Rva.live_path_sound", "Rva.live_edge", "Rva.
             "Rva.liveNode_below", "Rva.liveSweep_below", "Rva.liveness_least", "Rva.liveNode_noop",
             "Rva.liveness_fixpoint", "Rva.liveness_least_solution", "Rva.preSol_top",
             "Rva.ecall_table_matches_rars",
-            "Rva.live_path_sound_ext"]
+            "Rva.live_path_sound_ext", "Rva.unused_warning_only_if_unread", "Rva.unused_warning_sound",
+            "Rva.arguments_cover_reads", "Rva.returns_cover_caller_reads"]
 
 
 def oracle(src, blk, rng):
@@ -32,7 +33,7 @@ def oracle(src, blk, rng):
 
 
 def run(res, tier, seed):
-    proof_ok = proof_stage(res, "Rva.Proofs.C02Least", THEOREMS, extra_modules=["Rva.Proofs.C02", "Rva.Proofs.C02Paths", "Rva.Proofs.Tables"])
+    proof_ok = proof_stage(res, "Rva.Proofs.C02Least", THEOREMS, extra_modules=["Rva.Proofs.C02", "Rva.Proofs.C02Paths", "Rva.Proofs.C02c", "Rva.Proofs.Tables"])
     res.cov["rule"] = ("generated programs + corpus; the real live-in/live-out sets are compared with an "
                        "independent least-fixed-point solver of the documented equations, and with 3 concrete "
                        "executions per program (every register read must be live at every point since its "
